@@ -331,9 +331,9 @@ class Session:
 
 # ------------------------------------------------------------------------------------------------
 def inline_strategy(d, keys):
-    # free-standing calls over field subsets (keys given) name scalar fields only: a list element of an unpassed list
-    # as a constant operand runs into unfinished library paths (noted in DESIGN.md section 7, not a C03 subject)
-    g = gen.G(d, [f for f in FIELDS if keys is None or "[" not in f["name"]], ENUMS, mul_max_w=3)
+    # (free-standing calls over field subsets may name every field of the object, list elements included: what is not
+    #  passed is a constant)
+    g = gen.G(d, [f for f in FIELDS], ENUMS, mul_max_w=3)
     return [g.field_stmt(0) for _ in range(d.randint(1, 2))]
 
 
